@@ -681,6 +681,24 @@ def check_C18(ctx, w):
     for t in tests:
         t["ops"].append({"op": "reopen", "close": True, "create": False})
     seq_pipeline(ctx, w, tests, ["Conf_C18"])
+    # golden corpus: directories written by the pinned release (tools/mkgolden.py) are opened by the current code;
+    # the abstract state is rebuilt from the writes the pinned release acknowledged, then sweeps, writes and a reopen follow
+    import glob
+    binp = vlib.build()
+    uni = gen.universe(binp)
+    gt = []
+    for d in sorted(glob.glob(os.path.join(vlib.VERIF, "golden", "g*"))):
+        meta = json.load(open(os.path.join(d, "meta.json")))
+        g = gen.RandGen(uni, ctx.rng, nslots=8)
+        for variant in range(ctx.q(2, 6)):
+            ops = [{"op": "obs"}]
+            for _ in range(3 + variant):
+                ops.append(ctx.rng.choice([{"op": "put", "slot": g.slot(), "o": g.obj()}, {"op": "del", "slot": g.slot()}, g.batch()]))
+            ops += [{"op": "obs"}, {"op": "reopen", "close": True, "create": variant % 2 == 0}, {"op": "obs"}]
+            gt.append({"id": "%s-%d" % (os.path.basename(d), variant), "adopt": d, "cfg": meta["cfg"], "ops": ops,
+                       "fields": ["K", "S"] + g.flds[:1]})
+    seq_pipeline(ctx, w, gt, ["Conf_C01", "Conf_C02", "Conf_C03", "Conf_C04", "Conf_C13", "Conf_C18"], label="golden")
+    ctx.extra_cov["golden_directories"] = len(set(t["adopt"] for t in gt))
 
 
 def check_C19(ctx, w):
